@@ -213,6 +213,37 @@ fn c15_polynomial_algebra() {
             if trim(r.coeffs.clone()).len() >= trim(b.clone()).len() { bad.push(format!("div_rem variant {which}: deg r >= deg b for degrees {da},{db}")); }
         }
     } }
+    // structured operands: quotients and inverses with zero coefficients (incl. low-order zeros), equal degrees, constants
+    let fc = |v: &[i64]| -> Vec<F> { v.iter().map(|&x| F::from_noncanonical_i64(x)).collect() };
+    for (a, b) in [(fc(&[0, 1, 1, 1]), fc(&[1, 1, 1])), (fc(&[0, 0, 0, 1]), fc(&[0, 1])), (fc(&[0, 0, 1, 0, 1]), fc(&[1, 0, 1])), (fc(&[5, 0, 0, 0, 0, 0, 0, 0, 1]), fc(&[1, 0, 1])),
+                   (fc(&[3, 4, 5]), fc(&[7, 8, 9])), (fc(&[6]), fc(&[3])), (fc(&[0, 0, 2, 0, 0, 0, 2]), fc(&[0, 0, 1])), (fc(&[1, 0, 0, 0, 0, 0, 0, 0, 0, 0, 0, 0, 0, 0, 0, 0, 1]), fc(&[1, 0, 0, 0, 1]))] {
+        let (pa, pb) = (PolynomialCoeffs::new(a.clone()), PolynomialCoeffs::new(b.clone()));
+        for which in 0..2 {
+            cases += 1;
+            let res = std::panic::catch_unwind(std::panic::AssertUnwindSafe(|| if which == 0 { pa.div_rem(&pb) } else { pa.div_rem_long_division(&pb) }));
+            let what = format!("div_rem variant {which} of {:?} by {:?}", a.iter().map(|x| x.to_canonical_u64()).collect::<Vec<_>>(), b.iter().map(|x| x.to_canonical_u64()).collect::<Vec<_>>());
+            match res {
+                Err(_) => bad.push(format!("{what}: PANICKED")),
+                Ok((q, r)) => {
+                    let mut back = school_mul(&q.coeffs, &b);
+                    let l = back.len().max(r.coeffs.len()).max(a.len()); back.resize(l, F::ZERO);
+                    for (i, c) in r.coeffs.iter().enumerate() { back[i] += *c; }
+                    if trim(back) != trim(a.clone()) { bad.push(format!("{what}: q*b + r != a")); }
+                    if trim(r.coeffs.clone()).len() >= trim(b.clone()).len() { bad.push(format!("{what}: deg r >= deg b (q = {:?}, r = {:?})", q.coeffs.iter().map(|x| x.to_canonical_u64()).collect::<Vec<_>>(), r.coeffs.iter().map(|x| x.to_canonical_u64()).collect::<Vec<_>>())); }
+                }
+            }
+        }
+    }
+    for (h, n) in [(fc(&[1, 0, 1]), 8usize), (fc(&[1, 1]), 5), (fc(&[2, 0, 0, 0, 1]), 16), (fc(&[1, 0, 0, 1]), 7), (fc(&[3]), 4), (fc(&[1, 2, 3, 4, 5]), 3)] {
+        cases += 1;
+        let ph = PolynomialCoeffs::new(h.clone());
+        let what = format!("inv_mod_xn({n}) of {:?}", h.iter().map(|x| x.to_canonical_u64()).collect::<Vec<_>>());
+        match std::panic::catch_unwind(std::panic::AssertUnwindSafe(|| ph.inv_mod_xn(n))) {
+            Err(_) => bad.push(format!("{what}: PANICKED")),
+            Ok(inv) => { let mut pr = school_mul(&inv.coeffs, &h); pr.resize(n.max(pr.len()), F::ZERO); pr.truncate(n);
+                if pr[0] != F::ONE || pr[1..].iter().any(|x| x.is_nonzero()) { bad.push(format!("{what}: h * inv != 1 mod x^n")); } }
+        }
+    }
     for d in 1..10usize {
         let a: Vec<F> = (0..d).map(|_| rnd()).collect();
         let z = rnd();
